@@ -159,7 +159,8 @@ fn reset_config() {
 fn epilogue(wd: &World) {
     let top = Cx::Top;
     let mut acts: Vec<Act> = Vec::new();
-    // twice: callbacks that run while the first round releases things may store new handles / cleanables
+    // twice: callbacks that run while the first round releases things may store new handles / cleanables (and a third
+    // and fourth time if the second round's callbacks did it again: decided below, when the round has run)
     for _ in 0..2 {
         for i in 0..NC {
             acts.push(Act::CDrop { c: i as u8 });
@@ -197,6 +198,38 @@ fn epilogue(wd: &World) {
         wd.step.set(10_000 + i);
         exec(a, &top);
         oracle::check_qp(wd, "epilogue");
+    }
+    // whatever callbacks of the rounds above stored anew: release it as well (bounded)
+    for round in 0..3 {
+        let held = {
+            let m = wd.m.borrow();
+            m.r.iter().any(|x| x.is_some()) || m.g.iter().any(|x| x.is_some()) || m.wr.iter().any(|x| *x != WT::None) || m.cr.iter().any(|x| x.is_some())
+        };
+        if !held || wd.failed() {
+            break;
+        }
+        let mut more: Vec<Act> = Vec::new();
+        for i in 0..NC {
+            more.push(Act::CDrop { c: i as u8 });
+        }
+        for i in 0..NR {
+            more.push(Act::Drop { dst: Dst::R(i as u8) });
+        }
+        for i in 0..NG {
+            more.push(Act::Drop { dst: Dst::G(i as u8) });
+        }
+        more.push(Act::CollectQuiet);
+        for i in 0..NWR {
+            more.push(Act::WDrop { dst: WLoc::WR(i as u8) });
+        }
+        for (i, a) in more.iter().enumerate() {
+            if wd.failed() {
+                return;
+            }
+            wd.step.set(10_100 + round * 20 + i);
+            exec(a, &top);
+            oracle::check_qp(wd, "epilogue");
+        }
     }
 }
 
@@ -366,8 +399,12 @@ fn cb_snapshot(wd: &World) -> [u64; N_CB] {
 fn end_leak_check(wd: &World) {
     let m = wd.m.borrow();
     let pinned = m.objs.iter().any(|o| o.val == Val::Alive && o.box_live);
+    // the program may still hold something: a callback that ran while the epilogue released the last handles can have
+    // stored a new handle, Weak or Cleanable (a Cleanable keeps the side record of its cleaner's map alive) into a
+    // register that had already been emptied. Then nothing is judged here.
+    let held = m.r.iter().any(|x| x.is_some()) || m.g.iter().any(|x| x.is_some()) || m.wr.iter().any(|x| *x != WT::None) || m.cr.iter().any(|x| x.is_some()) || !m.pins.is_empty();
     drop(m);
-    if pinned {
+    if pinned || held {
         return;
     }
     if wd.mode.get().alloc_tracking && valloc::mode() != valloc::MODE_OFF {
@@ -376,7 +413,7 @@ fn end_leak_check(wd: &World) {
         if n > 0 {
             let m = wd.m.borrow();
             let desc: Vec<String> = v.iter().take(4).map(|b| {
-                let kind = if m.boxes.contains_key(&b.ptr) { "managed box" } else if m.sides.contains_key(&b.ptr) { "weak side record" } else { "other crate block" };
+                let kind = if m.boxes.contains_key(&b.ptr) { "managed box".to_string() } else if let Some(s) = m.sides.get(&b.ptr) { format!("weak side record of {:?}", s.owner) } else { "other crate block".to_string() };
                 format!("{} of {} bytes", kind, b.size)
             }).collect();
             let kinds: Vec<&str> = v.iter().take(1).map(|b| if m.boxes.contains_key(&b.ptr) { "box" } else if m.sides.contains_key(&b.ptr) { "side" } else { "other" }).collect();
